@@ -480,6 +480,19 @@ class Tr:
                 raise TranslationError(f"no variant of {fname} for argument type {ta!r}")
             inl = dict(inl["variants"][key], partial=inl.get("partial"), ignore_keywords=inl.get("ignore_keywords"))
             args = args[:len(inl["args"])]
+        if isinstance(inl, dict) and node.keywords and inl.get("kwargs"):
+            # keyword arguments of an inlined helper, put in the helper's positional order
+            names = inl["kwargs"]
+            extra = {}
+            for kw in node.keywords:
+                if kw.arg not in names:
+                    raise TranslationError(f"unexpected keyword {kw.arg} in {ast.unparse(node)}")
+                extra[kw.arg] = self.expr(kw.value, env)
+            order = names[len(names) - (len(inl["args"]) - len(args)):] if len(args) < len(inl["args"]) else []
+            if sorted(order) != sorted(extra):
+                raise TranslationError(f"keywords of {ast.unparse(node)} do not complete the positional arguments")
+            args = args + [extra[n] for n in order]
+            node = ast.Call(func=node.func, args=node.args, keywords=[])
         if isinstance(inl, dict) and (not node.keywords or inl.get("ignore_keywords")):
             actual = []
             for pn in inl.get("implicit", []):
@@ -1046,6 +1059,15 @@ SPECS = [
          params=[("sli", sl(INT))], returns=sl(INT), select=_whole, owners=["C11"]),
     dict(name="ensure_integer_slice", file="pyresample/future/geometry/_subset.py", func="_ensure_integer_slice",
          params=[("sli", ("slice3", opt(RAT)))], returns=("slice3", opt(INT)), select=_whole, owners=["C11"]),
+    dict(name="get_area_slices_tail", file="pyresample/future/geometry/_subset.py", func="get_area_slices",
+         params=[("x_slice", sl(INT)), ("y_slice", sl(INT)), ("src_area.width", INT), ("src_area.height", INT),
+                 ("shape_divisible_by", opt(INT))],
+         returns=tup(sl(INT), sl(INT)), select=_from_stmt("if shape_divisible_by is not None:\n    x_slice = _make_slice_divisible(x_slice, "
+                 "src_area.width, factor=shape_divisible_by)\n    y_slice = _make_slice_divisible(y_slice, src_area.height, factor=shape_divisible_by)"),
+         post_guard=["x_slice = _ensure_integer_slice(x_slice)", "y_slice = _ensure_integer_slice(y_slice)"],
+         inline={"_make_slice_divisible": dict(lean="make_slice_divisible", args=[sl(INT), INT, INT], kwargs=["max_size", "factor"], returns=sl(INT)),
+                 "check_slice_orientation": dict(lean="check_slice_orientation", args=[sl(INT)], returns=sl(INT))},
+         owners=["C19", "C11"]),
     # ---- C15 -----------------------------------------------------------------------------------
     dict(name="scheduler_init", file="pyresample/_multi_proc.py", func="Scheduler.__init__", mode="fragment", raises=True,
          params=[("ndata", INT), ("nprocs", INT), ("chunk", opt(INT)), ("schedule", STR)],
